@@ -103,6 +103,7 @@ func funcKey(f *ssa.Function) string {
 }
 
 func Load(o LoadOpts) (*Model, error) {
+	cfgCache = map[*ssa.Function]*cfgInfo{} // per-program cache: do not keep a previous program alive
 	env := append(os.Environ(), "GOFLAGS=-mod=mod", "GOPROXY=off", "GOSUMDB=off", "GOTOOLCHAIN=local", "GOWORK=off")
 	cfg := &packages.Config{
 		Mode:    packages.LoadAllSyntax,
